@@ -244,7 +244,7 @@ class OraBuilder(SQLBuilder):
         type_name = builder.json_value_type_mapping.get(type, 'VARCHAR2')
         return 'JSON_VALUE(', builder(expr), ', ', path_sql, ' RETURNING ', type_name, ')'
     def JSON_NONZERO(builder, expr):
-        return 'COALESCE(', builder(expr), ''', 'null') NOT IN ('null', 'false', '0', '""', '[]', '{}')'''
+        return 'COALESCE(', builder(expr), ''', 'null') NOT IN ('null', 'false', '0', '0.0', '-0.0', '""', '[]', '{}')'''
     def JSON_CONTAINS(builder, expr, path, key):
         assert key[0] == 'VALUE' and isinstance(key[1], str)
         path_sql, has_params, has_wildcards = builder.build_json_path(path)
